@@ -63,6 +63,7 @@ def run(ctx):
         else:
             one_family(ctx, n, w0, z, dx, lam, METHODS)
     lens_family(ctx, dx, lam)
+    stack_family(ctx, dx, lam)
 
 
 def one_family(ctx, n, w0, z, dx, lam, methods):
@@ -100,6 +101,39 @@ def one_family(ctx, n, w0, z, dx, lam, methods):
                     ctx.violation('%s %s: wavefront curvature has the wrong sign: the output matches the beam propagated by %s (L2 to +z solution %.3g, '
                                   'to its conjugate %.3g)' % (api, meth, '-z' if l2c < l2 else 'neither +z nor -z', l2, l2c),
                                   rec, {'api': api, 'method': meth, 'what': 'direction'})
+
+
+def stack_family(ctx, dx, lam):
+    """fields passed as a stack [k x m x n] (zero_pad / crop_center / custom accept that layout and the model's batch is a map over the
+    fields): every beam of the stack must come out as ITS OWN closed-form solution.  A stack the implementation rejects is not judged."""
+    n = 64
+    zc = n * dx * dx / lam
+    for kk, waists in ((2, (4.0, 6.0)), (3, (6.0, 4.0, 5.0))):
+        stack = np.stack([oracle(ctx, n, dx, w0, lam, 0.0) for w0 in waists])
+        for meth in METHODS:
+            for z in (zc, -zc):
+                rec = {'api': 'torch', 'method': meth, 'n': n, 'stack': kk, 'waists': list(waists), 'z': z, 'dx': dx, 'lam': lam}
+                ctx.case(('stack', meth, kk, z > 0), True)
+                ctx.count('stack/%s/k=%d' % (meth, kk))
+                try:
+                    out = W.impl('torch', meth, stack, dx, lam, z, samples=(2, 2, 2, 2))
+                except Exception:
+                    ctx.count('stack/rejected-by-implementation')
+                    continue
+                if out.shape != stack.shape:
+                    ctx.violation('torch %s returns shape %r for a stack %r' % (meth, out.shape, stack.shape), rec,
+                                  {'api': 'torch', 'method': meth, 'what': 'shape'})
+                    continue
+                for i, w0 in enumerate(waists):
+                    ref = oracle(ctx, n, dx, w0, lam, z)
+                    amp = math.sqrt(np.sum((np.abs(out[i]) - np.abs(ref)) ** 2) / np.sum(np.abs(ref) ** 2))
+                    single = W.impl('torch', meth, stack[i], dx, lam, z, samples=(2, 2, 2, 2))
+                    dif = W.maxdiff(out[i], single)
+                    if amp > 0.25 or dif > 1e-4 * max(1.0, float(np.max(np.abs(single)))):
+                        ctx.violation('torch %s on a stack of %d fields: entry %d (waist %g) is not the propagated entry %d (amplitude/width off by %.3g '
+                                      'relative L2 against its closed form, %.3g from the same field propagated alone)' % (meth, kk, i, w0, i, amp, dif),
+                                      dict(rec, entry=i), {'api': 'torch', 'method': meth, 'what': 'stack'})
+                        break
 
 
 def lens_family(ctx, dx, lam):
